@@ -196,6 +196,8 @@ def _pure_predicate(expr):
 
 
 def _copy_expr(n):
+    if isinstance(n, ast.Starred):
+        return ast.Starred(value=_copy_expr(n.value), ctx=ast.Load())
     return ast.parse(ast.unparse(n), mode="eval").body
 
 
@@ -940,7 +942,7 @@ class Walker:
                 if s.status in ("normal", "continue"):
                     cur.append(s.fork(status="normal"))
                 elif s.status == "break":
-                    out.append(self.emit(s.fork(status="normal"), Event("loopexit", st, frame, it=-1, iters=it + 1, iter=self.canon(st.iter, frame, s.env))))
+                    out.append(self.emit(s.fork(status="normal"), Event("loopexit", st, frame, it=-1, iters=it + 1)))
                 else:
                     out.append(s)
             cur = self.dedupe(cur)
